@@ -473,6 +473,11 @@ class NetworkService(ModelElement):
                 sp[1] not in self.topo.graph_model.get_all_ns_or_link_connection_points(link_id=self.node_id) or \
                 sp[-2] not in self.topo.graph_model.get_all_ns_or_link_connection_points(link_id=ns.node_id):
             raise TopologyException(f"Network services {self.name} and {ns.name} do not peer!")
+        # ... and both ports are the ServicePorts peer() creates: a port of another type (a NIC port this service
+        # is connected to, a trunk port of a switch) is a resource of its own, not a peering artefact to be deleted
+        if not all(self.topo.graph_model.get_node_properties(node_id=p)[1].get(ABCPropertyGraph.PROP_TYPE, None) ==
+                   str(InterfaceType.ServicePort) for p in (sp[1], sp[-2])):
+            raise TopologyException(f"Network services {self.name} and {ns.name} do not peer!")
         # remove ConnectionPoints and link between them
         self.topo.graph_model.remove_cp_and_links(node_id=sp[1])
         ns.topo.graph_model.remove_cp_and_links(node_id=sp[-2])
